@@ -4,6 +4,7 @@ import (
 	"encoding/binary"
 	"errors"
 	"fmt"
+	"io"
 )
 
 // HeaderHash
@@ -2367,25 +2368,25 @@ func (m *MetaCode) Decode(d *Decoder) error {
 		return err
 	}
 
-	if length == 0 {
-		return nil
+	// Decode the Metadata (may be empty: the code still follows)
+	if length != 0 {
+		metadata := make([]byte, length)
+		if _, err = io.ReadFull(d.buf, metadata); err != nil {
+			return err
+		}
+
+		m.Metadata = ByteSequence(metadata)
 	}
 
-	// Decode the Metadata
-	metadata := make([]byte, length)
-	if _, err = d.buf.Read(metadata); err != nil {
-		return err
+	// Decode the Code (remaining bytes, may be empty)
+	if remaining := d.buf.Len(); remaining != 0 {
+		code := make([]byte, remaining)
+		if _, err = io.ReadFull(d.buf, code); err != nil {
+			return err
+		}
+
+		m.Code = ByteSequence(code)
 	}
-
-	m.Metadata = ByteSequence(metadata)
-
-	// Decode the Code (remaining bytes)
-	code := make([]byte, d.buf.Len())
-	if _, err = d.buf.Read(code); err != nil {
-		return err
-	}
-
-	m.Code = ByteSequence(code)
 
 	return nil
 }
